@@ -427,11 +427,12 @@ class Folder:
             if isinstance(v, (int, float, str, bytes, bool, bytearray, list, tuple, dict, frozenset, range, type(None))):
                 return isinstance(v, tuple(types))
             raise Unfoldable("isinstance of a non-literal")
-        if isinstance(fn, ast.Name) and fn.id in ("min", "max", "abs", "int", "bool", "all", "any", "sum", "sorted", "hex") and expr.args and not expr.keywords:
+        if isinstance(fn, ast.Name) and fn.id in ("min", "max", "abs", "int", "bool", "all", "any", "sum", "sorted", "hex", "round", "divmod", "pow") and expr.args and not expr.keywords \
+                and not (scope.env is not None and fn.id in scope.env):
             args = [self.fold(a, scope) for a in expr.args]
             try:
                 return {"min": min, "max": max, "abs": abs, "int": int, "bool": bool, "all": all, "any": any, "sum": sum,
-                        "sorted": sorted, "hex": hex}[fn.id](*args)
+                        "sorted": sorted, "hex": hex, "round": round, "divmod": divmod, "pow": pow}[fn.id](*args)
             except Exception as e:  # noqa
                 raise Unfoldable(str(e))
         if kind == "ext" and obj == "re.sub" and len(expr.args) == 3 and not expr.keywords:
